@@ -119,6 +119,10 @@ def _run_cli(prop, tier, seed, v, wd):
     with cf.ThreadPoolExecutor(max_workers=4) as ex:
         futs = []
         mcs, exps = list(MC_PLAN[tier]), list(EXPORT_PLAN[tier])
+        if prop in ("C09", "C08"):
+            # zero values and stored NaNs (instantiated as -0 / +0 and as NaNs with different payloads by the harness)
+            mcs.append(("CLayoutsQuick", "MethodSum", "XffZero", 0, "Vals0", 2, False))
+            exps.append(("CLayoutsQuick", "MethodSum", "XffZero", 0, "Vals0", 2, False, 3))
         if prop in ("C18", "C16"):
             # physical slot order matters for view-raw: rings of 3 slots with gaps (first and last slot written, middle empty)
             mcs.append(("CLayoutsTwo", "MethodSum", "XffZero", 1, "Vals1", 2, False))
@@ -142,7 +146,7 @@ def _run_cli(prop, tier, seed, v, wd):
             runs.append({"config": meta, "distinct_states": res["distinct"], "transitions": res["generated"], "wall_s": round(res["wall"], 1)})
             continue
         outj = res["path"] + ".replay.json"
-        p = subprocess.run([binp, "cli", prop, res["path"], outj], stdout=subprocess.PIPE, stderr=subprocess.STDOUT, text=True)
+        p = subprocess.run([binp, "cli", prop, res["path"], outj], stdout=subprocess.PIPE, stderr=subprocess.STDOUT, text=True, timeout=HARNESS_TIMEOUT)
         if p.returncode != 0:
             raise Broken("cli replay failed: " + p.stdout[-2000:])
         r = json.load(open(outj))
@@ -173,7 +177,7 @@ def fault_grid(tier, seed, v, wd, binp):
     require_clean_mc(res, "fault table")
     outj = os.path.join(wd, "faults.json")
     rounds = {"quick": 6, "thorough": 60}[tier]
-    p = subprocess.run([binp, "cli-faults", res["path"], str(seed), str(rounds), outj], stdout=subprocess.PIPE, stderr=subprocess.PIPE, text=True)
+    p = subprocess.run([binp, "cli-faults", res["path"], str(seed), str(rounds), outj], stdout=subprocess.PIPE, stderr=subprocess.PIPE, text=True, timeout=HARNESS_TIMEOUT)
     if p.returncode != 0:
         err = p.stderr
         if "panic:" in err or "fatal error:" in err:
@@ -301,7 +305,7 @@ def replay(wd, prop, rp, path):
         inp = os.path.join(wd, "in.ndjson")
         open(inp, "w").write(json.dumps(rp["tree"]) + "\n")
         outj = os.path.join(wd, "out.json")
-        p = subprocess.run([binp, "cli", prop, inp, outj], stdout=subprocess.PIPE, stderr=subprocess.STDOUT, text=True)
+        p = subprocess.run([binp, "cli", prop, inp, outj], stdout=subprocess.PIPE, stderr=subprocess.STDOUT, text=True, timeout=HARNESS_TIMEOUT)
         if p.returncode != 0:
             raise Broken(p.stdout)
         r = json.load(open(outj))
